@@ -196,11 +196,8 @@ static bool grid(const Args &a, Evidence &ev, size_t mtu, const std::vector<size
             bool nontriv = size > pmax || (off + 2 >= size && off <= size + 2);
             if (nontriv) nt++;
             if (!e.empty()) {
-                Case c; h.to_case(c);
-                Op d; d.kind = K_DISCOVER; d.a = {0, 0, 1, 1, 0, 0, -1};
-                Op q; q.kind = K_QLT; q.a = {0, 7, 0x11, off, 0};
-                c.ops = {d, q};
-                write_file(a.failing, fmt("# c08-grid: size %zu offset %u mtu %zu: %s\n", size, off, mtu, e.c_str()) + c.to_text());
+                // the reproduction is the whole run of requests made on this instance so far (an answer may depend on the ones before it)
+                write_file(a.failing, fmt("# c08-grid: size %zu offset %u mtu %zu: %s\n", size, off, mtu, e.c_str()) + cur.to_text());
                 fprintf(stderr, "FAIL part=c08-grid size=%zu offset=%u mtu=%zu: %s\n", size, off, mtu, e.c_str());
                 return false;
             }
